@@ -32,6 +32,7 @@ type ATWorld struct {
 	DBName     string
 	coord      *Coord
 	tableSeq   int
+	nameFrom   *ATWorld // the world whose counter names this world's tables (nil: its own)
 }
 
 var (
@@ -68,6 +69,34 @@ func GetATWorld() *ATWorld {
 	return atWorld
 }
 
+var (
+	atWorldB     *ATWorld
+	atWorldBOnce sync.Once
+)
+
+// GetATWorldB opens a SECOND AT data source of the same process: another server (its own engine, with
+// auto_increment_increment = 2) holding another schema, behind its own proxy driver and resource id.
+// Table names are drawn from world A's counter, so no name is used on both servers.
+func GetATWorldB() *ATWorld {
+	a := GetATWorld()
+	atWorldBOnce.Do(func() {
+		eng := memdb.New("verifdb_b")
+		eng.SetAutoIncStep(2)
+		eng.CreateUndoLogTable()
+		sql2.VerifRegisterDrivers("verif-at-b", "verif-xa-b", eng.Driver())
+		db, err := sql.Open("verif-at-b", "root:pw@tcp(127.0.0.2:3306)/verifdb_b?multiStatements=true")
+		if err != nil {
+			panic(err)
+		}
+		if err = db.Ping(); err != nil {
+			panic(fmt.Sprintf("at-b ping: %v", err))
+		}
+		atWorldB = &ATWorld{Eng: eng, DB: db, Bare: sql.OpenDB(eng.Connector()), coord: a.coord, DBName: "verifdb_b",
+			ResourceID: "root:pw@tcp(127.0.0.2:3306)/verifdb_b", nameFrom: a}
+	})
+	return atWorldB
+}
+
 // OpenXA opens the XA-proxied handle lazily (its resource registers separately).
 func (w *ATWorld) OpenXA() *sql.DB {
 	if w.XA == nil {
@@ -90,6 +119,9 @@ func (w *ATWorld) SetUndoConfig(ser string, comp string, validate bool, onlyCare
 
 // NewTableName returns a table name unused so far in this process (the meta cache never forgets).
 func (w *ATWorld) NewTableName(prefix string) string {
+	if w.nameFrom != nil {
+		return w.nameFrom.NewTableName(prefix)
+	}
 	w.tableSeq++
 	return fmt.Sprintf("%s%d", prefix, w.tableSeq)
 }
